@@ -1,20 +1,13 @@
 import BpModel.All
 import BpProofs.Eqv
 import BpProofs.RtFlat
+import BpProofs.FieldKinds
 /-
   C01, nested messages: well-typedness of nested values and the statements of the
   per-slot steps for message-typed slots.
 -/
 namespace Bp
 open Gen
-
-/-- a singular or repeated field holding messages of class `c` -/
-structure SubField (f : FieldD) (c : Nat) : Prop where
-  ty : f.ty = PType.message
-  nw : f.wraps = Option.none
-  kind : f.kind = MsgKind.user c
-  num : numOk f.num = true
-  rep : f.repeated = true → f.optional = false ∧ f.group = Option.none
 
 mutual
 /-- a raw slot value that is well-typed for its field (flat fields as in `flatSlotOk`;
